@@ -57,7 +57,11 @@ RULE = ('scope stacks: DictScope root (values = small integers / dyadic rational
         'Round 5, deterministic: JointScope that takes a name n from a sub scope in which n is NOT volatile while another '
         'sub scope of the same joint scope has a volatile parameter called n (constant marked volatile there / derived from '
         'one / loop index), both insertion orders, bare / below a MappedScope / built by VolatileValue.operation, with '
-        'change_constants on either root.  Must-be-equal twins inside histories are judged by py_spec.')
+        'change_constants on either root.  Round 6, deterministic (family6, 81 cases): stacks that do NOT denote a whole '
+        'mapping (an expression over a name nobody provides / a division by a constant of value 0) below, above and between '
+        'name-coincidence layers (swaps, cycle, a->a+1, v->7, loop index = constant / volatile name), views before any '
+        'lookup, lookups of every name, one name overwritten twice, change_constants; returned values are judged by '
+        'check_spec against the value of the single name.  Must-be-equal twins inside histories are judged by py_spec.')
 TRUSTED = [
     'Coq 8.16.1 kernel + vm_compute (no native_compute)',
     'sympy / qupulse.expressions evaluate + - x /const Min Max over small integers and dyadic rationals exactly; '
@@ -94,6 +98,10 @@ ASSUMPTIONS = [
     'identities of the harness\'s scope builder (admission test lab_okb, proved sufficient: C13_heap_admission); only '
     'values are observed, never the identity of a scope returned by change_constants (returning self or a copy is the '
     'implementation\'s choice)',
+    'on a scope that does not denote a whole mapping (some mapping expression has no value) check_spec judges a lookup '
+    'that returns and every entry of a returned dictionary view against the value of that single name '
+    '(SpecLazy.value_at, C13_lookup_partial), one-sided: where the name has no value in the model the code may return '
+    'one (sympy cancels a zero divisor out of (p*p)/p); which call raises there is not judged',
     'values(), Mapping.get, VolatileValue.volatile_property and int(VolatileRepetitionCount) are cross-checked on the '
     'harness side only (a disagreement is reported as a crashed case)',
 ]
@@ -1272,8 +1280,47 @@ def fam_joint_foreign_volatile():
     return out
 
 
+def fam_partial():
+    """round 6: stacks that do NOT denote a whole mapping (one mapping expression reads a name nobody provides, or divides
+    by a constant whose value is 0) combined with the name-coincidence layers (swap, swap through the volatile name,
+    3-cycle, a -> a+1, v -> 7, variable overwritten by the same mapping, loop index = constant / volatile name), broken
+    layer below / above / between; every view first (as_dict / items before any lookup), lookups of every name, the views
+    again, overwrite of one name twice with different values, change_constants, lookups and views again.  The values the
+    code returns here are judged by check_spec against SpecLazy.value_at (C13_lookup_partial)"""
+    a, b, v, x, y = 'p0', 'p1', 'p2', 'p5', 'p6'
+    M = lambda *kv: ('mapped', [list(p) for p in kv])
+    R = lambda n, val: ('range', n, val)
+    broken = [M((y, ['+', _v('p7'), _v(v)])),                          # p7 is provided by nobody
+              M((y, ['+', _v('p7'), _v(v)]), (x, ['+', _v(a), _v(b)])),  # ... next to an entry that has a value
+              M((y, ['div', _v(b), _v('p4')]))]                         # p4 = 0 in the root below
+    coin = [M((a, _v(b)), (b, _v(a))), M((b, _v(a)), (a, _v(b))), M((a, _v(v)), (v, _v(a))),
+            M((a, _v(b)), (b, _v(v)), (v, _v(a))), M((a, ['+', _v(a), ['c', '1']])), M((v, ['c', '7'])),
+            M((a, ['+', _v(v), _v(b)]), (b, ['c', '7'])), R(a, '0'), R(v, '4')]
+    roots = [{'t': 'dict', 'vals': [['p0', '1'], ['p1', '2'], ['p2', '3'], ['p4', '0']], 'vol': ['p2']},
+             {'t': 'dict', 'vals': [['p0', '1'], ['p1', '2'], ['p2', '3'], ['p3', '5'], ['p4', '0@f']], 'vol': ['p2', 'p3']}]
+    names = ['p0', 'p1', 'p2', 'p4', 'p5', 'p6', 'p7']
+    gets = [['get', n] for n in names]
+    views = [['as_dict'], ['items'], ['len'], ['iter'], ['keys'], ['in', 'p6'], ['in', 'p7'], ['vol']]
+    out = []
+    for ri, root in enumerate(roots):
+        for ci, c in enumerate(coin):
+            for bi, br in enumerate(broken):
+                if (ci + bi + ri) % 2:          # fixed thinning: 27 of the 54 (coin, broken) pairs per order
+                    continue
+                for stack in ([br, c], [c, br], [c, br, coin[(ci + 3) % len(coin)]]):
+                    s = root
+                    for layer in stack:
+                        s = fam_apply(s, layer)
+                    ops = views[:2] + gets + views + [['overwrite', [['p1', '5']]], ['overwrite', [['p1', '6'], ['p6', '0']]]] \
+                        + gets + views[:2] + [['change', [['p2', '0']]]] + gets + views[:2]
+                    if history_bounded(s, ops):
+                        out.append({'kind': 'hist', 'scope': s, 'ops': ops, 'src': 'family6'})
+    return out
+
+
 def r4_cases(full):
-    return fam_joint_roots(full) + fam_shadow_change(full) + fam_volop() + fam_eqt(full) + fam_joint_foreign_volatile()
+    return fam_joint_roots(full) + fam_shadow_change(full) + fam_volop() + fam_eqt(full) + fam_joint_foreign_volatile() \
+        + fam_partial()
 
 
 def exhaustive_small(rng, frac):
@@ -2032,7 +2079,9 @@ MANIFEST = {
                   'and to denote the same mapping; the computed denotation is proved (round 6) to be the unique mapping '
                   'with the pointwise property the statement words (mapping expressions valued in the mapping of the OUTER '
                   'scope, innermost definition wins, loop index shadows, joint entries from their sub scope), and lookup / '
-                  'membership / dictionary view of the model are stated against that relation; the model is tied '
+                  'membership / dictionary view of the model are stated against that relation; on scopes that do NOT '
+                  'denote a whole mapping a lookup is proved to return q iff q is the value of that single name '
+                  '(SpecLazy.value_at) and a returned dictionary view to hold such values only; the model is tied '
                   'to the code by an '
                   'exact correspondence check of operation histories on one object graph (tree model, cache-free paths '
                   'and heap model) and of == / != / hash on twin, retyped and cross-class scopes.',
